@@ -478,18 +478,38 @@ def range_rules(R, lib):
         seen_test = []
 
         class GR(Rule):
+            """state: 'outside' once a bound test has failed, else the set of bounds ({'lo', 'hi'}) known to hold; the year is
+            'inside' when both hold.  Each leaf comparison is read for what it says about its bound - `year < startYear - 1`
+            true means below the range, `startYear - 1 <= year` true means the lower bound holds - so the range test may be
+            written as a rejection or as an acceptance, in one condition or in several."""
+
             def initial(self_):
-                return ['untested']
+                return [frozenset()]
 
             def refine(self_, cond, st, truth):
-                calls = [e.a[0].split('::')[-1] for e in walk_expr(cond) if e.k == 'call']
-                if 'startYear' in calls or 'untilYear' in calls:
-                    seen_test.append(cond.loc)
-                    # the test is written as "out of range": true -> outside
-                    c = cond
-                    ops = [e.a[0] for e in walk_expr(c) if e.k == 'bin' and e.a[0] in ('<', '>', '<=', '>=')]
-                    return 'outside' if truth else 'inside'
-                return st
+                c = cond
+                while c.k == 'cast':
+                    c = c.a[2]
+                if not (c.k == 'bin' and c.a[0] in ('<', '>', '<=', '>=')):
+                    return st
+                sides = []
+                for x in (c.a[1], c.a[2]):
+                    calls = [e.a[0].split('::')[-1] for e in walk_expr(x) if e.k == 'call']
+                    sides.append('lo' if 'startYear' in calls else 'hi' if 'untilYear' in calls else None)
+                if sides.count(None) != 1:
+                    return st
+                seen_test.append(cond.loc)
+                bound = sides[0] or sides[1]
+                op = c.a[0]
+                if sides[0] is not None:       # bound OP year  ->  year OP' bound
+                    op = {'<': '>', '>': '<', '<=': '>=', '>=': '<='}[op]
+                if not truth:
+                    op = {'<': '>=', '>': '<=', '<=': '>', '>=': '<'}[op]
+                # now: year op bound holds
+                holds = op in ('>', '>=') if bound == 'lo' else op in ('<', '<=')
+                if st == 'outside':
+                    return st
+                return (st | {bound}) if holds else 'outside'
 
             def event(self_, e, st, tr):
                 if e.k == 'call':
@@ -497,7 +517,7 @@ def range_rules(R, lib):
                     if cs and cs[0].name.startswith(cls + '::') and reads_zone_data(lib, cs[0], memo):
                         c = '%s->%s' % (f.name, e.a[0].split('::')[-1])
                         R.instance('R4', c, e.loc, 'fill call')
-                        if st != 'inside':
+                        if st != frozenset({'lo', 'hi'}):
                             R.violation('R4', c, e.loc, 'the cache is filled from the zone data on a path where the year was not tested against [startYear-1, untilYear]', detail=list(tr))
                 return st
 
@@ -652,22 +672,34 @@ def error_return_rule(R, lib, f, want):
         raise AnalysisError('%s: accessor neither captures nor tests the result of init()/getTransition()' % f.loc)
 
     class ER(Rule):
+        """state: (status, last local assigned on the failed path, locals known to be null on this path)"""
+
         def initial(self_):
-            return [('unknown', None)]
+            return [('unknown', None, frozenset())]
 
         def refine(self_, cond, st, truth):
             p, positive = null_test(cond)
             if p in succ_vars:
-                return ('ok' if truth == positive else 'failed', st[1])
+                return ('ok' if truth == positive else 'failed', st[1], st[2])
             d = direct_test(cond)
             if d is not None:
-                return ('ok' if truth == d else 'failed', st[1])
+                return ('ok' if truth == d else 'failed', st[1], st[2])
+            if p is not None and p in st[2] and truth == positive:
+                return None         # a pointer set to null on this path does not test as non-null
             return st
 
         def assign(self_, s, st, tr):
+            name = s.a[0] if s.k == 'decl' else (s.a[0].a[0] if s.a[0].k == 'var' else None)
+            val = s.a[2] if s.k == 'decl' else s.a[1]
+            if name is not None:
+                v = val
+                while v is not None and v.k in ('cast', 'ptrcast'):
+                    v = v.a[-1]
+                nulls = (st[2] | {name}) if (v is not None and v.k == 'null') else (st[2] - {name})
+                st = (st[0], st[1], nulls)
             # remember the last value assigned to locals on the failed path
             if st[0] == 'failed' and s.k == 'assign' and s.a[0].k == 'var':
-                return (st[0], (s.a[0].a[0], id(s)))
+                return (st[0], (s.a[0].a[0], id(s)), st[2])
             return st
 
         def at_exit(self_, kind_, stmt, st, tr):
